@@ -71,7 +71,7 @@ let () =
     (match String.split_on_char '|' line with
      | hd :: sa :: sb :: sd :: slo :: shi :: sx :: _ ->
        (match split_ws hd with
-        | ["P"; algo; bounded; kind; n; maxit; thr; maxstep; ens] ->
+        | ["P"; algo; bounded; kind; n; maxit; thr; maxstep; ens; mls] ->
           let algo = int_of_string algo and bounded = bounded = "1" and n = int_of_string n and maxit = int_of_string maxit in
           let av = Array.of_list (floats sa) and b = Array.of_list (floats sb) and d = Array.of_list (floats sd) in
           let lo = floats slo and hi = floats shi and x0 = floats sx in
@@ -139,7 +139,7 @@ let () =
               let norm2p v = let r = norm2 v in if pert = 0 then r else r *. (1.0 +. pnext ()) in
               let k = { c1_1 = 1.1; c10 = 10.0; c5 = 5.0; c2 = 2.0; c3 = 3.0; c0_95 = 0.95; c0_05 = 0.05; cbig = max_float; ceps4 = 4.0 *. epsilon_float } in
               let gs = { g_max_it = z_of_int maxit; g_max_step = float_of_string maxstep; g_thr = float_of_string thr; g_ensure = z_of_int (int_of_string ens);
-                         g_max_ls = nat_of_int 10; g_armijo = 1.0e-4; g_curv = 0.1 } in
+                         g_max_ls = nat_of_int (int_of_string mls); g_armijo = 1.0e-4; g_curv = 0.1 } in
               if algo = 0 then
                 let ls = { lb_cg = gs; lb_curv = 0.9; lb_n_states = z_of_int (min n 6); lb_tiny = 10.0 *. min_float } in
                 if bounded then lbfgs_bounded ops cost grad norm2p sqrt isfinite (fun z -> float_of_int (int_of_z z)) fo ls k lo hi x0 (-1.0) infinity
